@@ -106,7 +106,10 @@ def run(ctx):
         # another coordinate along the depth dimension that is not a depth (a layer number): it goes with the dimension
         aux = n % 3 != 2
         if aux:
-            ds = ds.assign_coords(layer_number=(specs[0]['dim'], numpy.arange(specs[0]['n'], dtype='i4') + 1))
+            # (numbered from the bottom when the file lists the sea bed first; labelled with a CF standard name that is not a depth)
+            lay = numpy.arange(specs[0]['n'], dtype='i4') + 1
+            ds = ds.assign_coords(layer_number=(specs[0]['dim'], lay, {
+                'long_name': 'layer number', 'standard_name': rng.choice(['model_level_number', 'ocean_sigma_coordinate', 'altitude', 'height'])}))
             ds.encoding = dict(ds.encoding)
         ctx.count(f'auxiliary coordinate on the depth dimension:{aux}')
         ctx.count(f'family:{d.family}')
@@ -128,7 +131,12 @@ def run(ctx):
                 r = attempt(lambda: ds.ems.ocean_floor())
             else:
                 call_names = names
-                r = attempt(lambda: depth_ops.ocean_floor(ds, names, non_spatial_variables=[tname]))
+                # with the time coordinate named as non-spatial, or (every other dataset) with that argument left at its default
+                if n % 4 == 1:
+                    ctx.count('function called without non_spatial_variables')
+                    r = attempt(lambda: depth_ops.ocean_floor(ds, names))
+                else:
+                    r = attempt(lambda: depth_ops.ocean_floor(ds, names, non_spatial_variables=[tname]))
         if r[0] != 'ok':
             ctx.report('property', f'ocean_floor failed: {r[1]}', case0)
             continue
